@@ -606,6 +606,18 @@ func (i *Install) replaceRelease(rel *release.Release) error {
 	// Update version to the next available
 	rel.Version = last.Version + 1
 
+	// An older revision that is still marked deployed (for example below a failed
+	// upgrade) is superseded by the new release as well, so that at most one
+	// revision is ever marked deployed.
+	for _, r := range hist[1:] {
+		if r.Info.Status == release.StatusDeployed {
+			r.SetStatus(release.StatusSuperseded, "superseded by new release")
+			if err := i.recordRelease(r); err != nil {
+				return err
+			}
+		}
+	}
+
 	// Do not change the status of a failed release.
 	if last.Info.Status == release.StatusFailed {
 		return nil
